@@ -605,6 +605,15 @@ CLAIMED["C01"]["text"] += (" Round 9 (gapg): vlib/precmd.py -- the round trip af
                             "every encoding x both values of the Ambisonic flag re-opens as itself.")
 
 
+CLAIMED["C05"]["text"] += (" Round 9 (gaph): THE STAGING-LOOP MATRIX (vlib/stagecamp.py): one short transfer inside the staging loop of every write kernel -- cells from the Lean kernel table Sf.StageLoop.kernels checked against the tree's own dispatch, + IEEE replace and DPCM kernels; "
+                           "clauses count / position / resume / file of Sf.StageLoop.judge; writeLoop_counts_stored / write_call_counts_stored (lean/SfProps/C05Stage.lean): for every oracle inside the callback contract the return value is the whole frames among the bytes accepted. "
+                           "sf_write_raw as the write entry point of every sample-granular format in SFM_WRITE (vlib/rawwrite.py, Sf.Abs; lean/SfProps/C04RawWrite.lean).")
+CLAIMED["C04"]["text"] += (" Round 9 (gaph): the staging-loop matrix (the closed file holds exactly the frames the calls accepted under one short transfer in any kernel; vlib/stagecamp.py, lean/SfProps/C05Stage.lean) and sf_write_raw as a write entry point "
+                           "(vlib/rawwrite.py: every sample-granular container x encoding, content behind the audio; write_raw_counts_frames, channels_rule_iff_one_byte in lean/SfProps/C04RawWrite.lean).")
+CLAIMED["C15"]["text"] += (" Round 9 (gaph): stage 2c = the staging-loop matrix (vlib/stagecamp.py); stage 2d = genuine OS failures on the SECOND file of a handle (vlib/secondfile.py, harness/secondfile.c: SD2 resource fork / data file on /dev/full, unopenable fork names, RLIMIT_FSIZE, ALAC spool): "
+                           "descriptors, double closes (EBADF counted by interposing close), heap balance, judged by Sf.RsrcSwap.obsOk; code_rule_releases / early_rule_leaks (lean/SfProps/C15Second.lean) over the filedes / savedes swap of sd2_write_rsrc_fork.")
+
+
 def main():
     checks = []
     for p in PROPS:
